@@ -45,6 +45,7 @@ func registry() []PropSpec {
 			ID: "C07",
 			Quick: []HarnessSpec{
 				{Pkg: pkgCC, Func: "H07n_q", Unwind: 12, Note: "generateTestCasePrefix: suite with 0..2 entries per relevant list and TLS reliance, two symbolic config cases admitted by it: prefixes equal iff the cases are equal"},
+				{Pkg: pkgCC, Func: "H07d_q", Unwind: 8, UnwindFor: map[string]int{"vModelPathJoin": 12, "expandCases": 40, "expandSuite": 40, "populateExpectedResponses": 40, "groupTestCases": 40}, NoDedupe: true, Note: "a suite whose version / protocol / codec / compression list (one of them, symbolic) names its value twice, one unary test, one matching config case (TLS symbolic)"},
 				{Pkg: pkgCC, Func: "H07a_q", Unwind: 8, UnwindFor: map[string]int{"vModelPathJoin": 12, "h07a": 400, "populateExpectedResponses": 400, "groupTestCases": 400}, JobSecs: 600, ExecSecs: 500, TimeoutMs: 120000, NoDedupe: true, FeasSecs: 5, Split: []SplitDim{{"s.nver", 0, 1}, {"s.nproto", 0, 1}, {"s.ncodec", 0, 1}, {"s.ncomp", 0, 1}, {"s.cvm", 0, 2}, {"s.mode", 0, 2}, {"mode", 1, 2}}, CaseNote: "case split: number of entries of each relevant list, Connect version mode, suite mode and run mode; list entries, reliance flags, test stream type and both config cases are symbolic", Note: "newTestCaseLibrary on one suite with symbolic directives (relevant HTTP versions / protocols / codecs / compressions 0..1 entry each, TLS / client-cert / GET / receive-limit reliance, Connect version mode, suite mode vs run mode), one test case of symbolic stream type, and one symbolic config case"},
 			},
 			Stubs: []string{"proto.Clone = field-wise copy", "path.Join on clean components, fmt.Sprintf of enum names abstracted (literal spelling of names is not checked)", "the 'all values' enum lists are bounded to two values per axis (natively too)", "map ranges without key de-duplication (maps observed as sets)"},
